@@ -17,6 +17,18 @@ pub fn run(o: &Opts) -> i32 {
     };
     let wref = &words;
     let mut streams: Vec<Stream> = Vec::new();
+    // every operation of the engine once, in order, twice over (one case): clamped interpreter runs
+    // then execute each conversion / constructor / parser path at least once on dirty destinations
+    streams.push(Stream::new("all-operations-in-order", 1, move |_i, rng: &mut Rng, l: &mut Local| {
+        let mut st = St::new();
+        for round in 0..2 {
+            for op in 0..objops::N_OPS {
+                let op = if round == 0 { op } else { objops::N_OPS - 1 - op };
+                objops::step_op(l, Mode::Content, &mut st, rng, wref, op);
+                st.log.clear(); // keep witness signatures short; the order is fixed
+            }
+        }
+    }));
     streams.push(Stream::new("conversion-chains", o.n(100_000, 6_000_000), move |_i, rng: &mut Rng, l: &mut Local| {
         let mut st = St::new();
         let n = rng.urange(3, 16);
